@@ -11,7 +11,7 @@
 (* each inner iteration enclosing one.  Many runs are concatenated; a      *)
 (* reset event starts the next one.                                        *)
 (***************************************************************************)
-EXTENDS NamedView, Json, IOUtils, TLC
+EXTENDS NamedView, Json, IOUtils, TLC, Integers
 
 Rec == ndJsonDeserialize(IOEnv.TRACE)
 
@@ -62,8 +62,10 @@ INext == /\ IsEvent("inext")
                /\ acc' = <<acc[1] + Rec[l].lo, acc[2] + Rec[l].hi>>
             \/ /\ Rec[l].kind = "none"
                /\ InnerNextNone
-               \* the probabilities of the listed actions sum to one
+               \* the probabilities of the listed actions sum to one: in micro-units as tallied here, and the
+               \* float sum formed by the harness deviates by less than 1e-11 (dev is in units of 1e-13)
                /\ acc[1] <= 1000000 /\ 1000000 <= acc[2]
+               /\ Rec[l].dev >= -100 /\ Rec[l].dev <= 100
                /\ acc' = acc
          /\ UNCHANGED meta
 
